@@ -328,7 +328,7 @@ def c03_tables(R):
 @rule(
     "C03.z3str",
     props=("C03", "C26"),
-    floor=3,
+    floor=2,
     family="DEP",
     desc="no raw pass-through across the Z3 text boundary: z3.StringVal interprets \\u{..} / \\x.. escapes and "
     ".as_string() produces them, so the caller's string must not be handed to StringVal as is, and an "
@@ -367,7 +367,7 @@ def c03_z3str(R):
                     f"{q} uses `{norm(c)}` as the string value without decoding Z3's escapes: a model value "
                     f"'\\x00z' comes back as the seven characters '\\u{{0}}z'",
                 )
-    R.need(n >= 3, "Z3 string boundary sites not found")
+    R.need(n >= 2, "Z3 string boundary sites not found")
 
 
 @rule(
